@@ -1,5 +1,5 @@
 (** Request dispatch: one request line in, one response line out. *)
-From Cel.Model Require Export Wire Arith Compare Macros Parser Refs WireData WireSpec WireHeap WireSurface.
+From Cel.Model Require Export Wire Arith Compare Macros Parser Refs WireData WireSpec WireHeap WireSurface Position.
 Open Scope string_scope.
 
 (** the context holds exactly the standard functions (hypothesis of C03_refines) *)
@@ -89,6 +89,16 @@ Definition handle (req : sexp) : sexp :=
           | COutOfFuel => Atom "(out-of-fuel)"
           end
       | None => bad "compile"
+      end
+  | SList [Atom "posfor"; src; st] =>
+      (* the position reported for a macro error at byte offset [st] (unwrap_or_default: 0 0) *)
+      match opt_str src, sexp_N st with
+      | Some s, Some n =>
+          match pos_for (utf8_enc s) (N.to_nat n) with
+          | Some (l, c) => tagged "pos" [atomZ (Z.of_nat l); atomZ (Z.of_nat c)]
+          | None => tagged "pos" [atomZ 0; atomZ 0]
+          end
+      | _, _ => bad "posfor"
       end
   | SList [Atom "evalsrc"; c; src] =>
       match ctx_of_sexp c, opt_str src with
